@@ -165,11 +165,18 @@ def run(ctx):
         sim = new_sim(rebound, integ, c["t0"], c["dt"])
         ev = dict(c["events"])
         for ci, tm in enumerate(c["targets"]):
+            if ci > 0 and multi and rng.random() < 0.5:
+                # another integrator for the next call on the same simulation object: the contract is per call
+                integ = rng.choice([i_ for i_ in integs if i_ not in ("janus",)])
+                sim.integrator = integ
+                c = dict(c, switched=c.get("switched", []) + [(ci, integ)])
+                if integ in ("ias15", "bs", "mercurius", "trace") and abs(tm - sim.t) > 20:
+                    break
             ts = []
             steps0 = sim.steps_done
             t_before, dt_before = sim.t, sim.dt
             evc = ev if ci == 0 else {}
-            capo = (int(abs(tm - t_before) / abs(c["dt"])) + 12) if integ in fixed else 200000
+            capo = (int(abs(tm - t_before) / abs(dt_before)) + 12) if (integ in fixed and dt_before != 0) else 200000
             def hb(simp, ev=evc, ts=ts, steps0=steps0, capo=capo):
                 s = simp.contents
                 ts.append(s.t)
@@ -190,7 +197,7 @@ def run(ctx):
             dt_user = math.copysign(dt_before, sign) if tm != t_before else dt_before
             why = None
             if st == 98:
-                why = "integrate did not reach the target within %d steps (|tmax-t|/|dt| = %.3g)" % (capo, abs(tm - t_before) / abs(c["dt"]))
+                why = "integrate did not reach the target within %d steps (|tmax-t|/|dt| = %.3g)" % (capo, abs(tm - t_before) / abs(dt_before or 1))
             if st == 0:
                 if c["exact"] and tm != t_before:
                     tscale = 1e-12 * abs(tm)
